@@ -2,6 +2,7 @@
 import collections
 import copy
 import json
+import os
 import random
 
 from harness import common, encode_fixture, encode_json as ej, infer_cases, typegen
@@ -728,7 +729,118 @@ def _reload_history(mod, CallTrace, CallTraceRow, ct, ft, it, names, dist):
             raise RuntimeError("harness: reload did not rebind " + label)
         out.append(_trace_case(CallTrace, CallTraceRow, func, expect, kind, label, {"x": a(mod)}, r(mod), y(mod),
                                "type", "type", ct, ft, it, names, dist, decode_row=old_row))
+    out += _late_module_history(CallTrace, CallTraceRow, ct, ft, it, names, dist)
+    out += _import_in_progress_history(CallTrace, CallTraceRow, ct, ft, it, names, dist)
     return out
+
+
+LATE_SOURCE = '''
+class LateCls:
+    class Inner:
+        pass
+
+
+def late_func(a, b=1):
+    return a
+'''
+
+SLOW_SOURCE = '''
+import c08fx_sync as _S
+
+first = 1
+_S.EV_STARTED.set()                 # the importing thread is now in the middle of the module body ...
+_S.EV_GO.wait(10)                   # ... and stays there until told to go on (or 10 s at most)
+
+
+class Job:
+    pass
+
+
+def work(a):
+    return a
+'''
+
+
+def _row_text(CallTraceRow, module, qualname, arg_cls_qualname):
+    cls_d = {"module": module, "qualname": arg_cls_qualname}
+    return CallTraceRow(module, qualname, json.dumps({"a": cls_d}, sort_keys=True),
+                        json.dumps({"elem_types": [cls_d], "module": "typing", "qualname": "List"}, sort_keys=True), None)
+
+
+def _late_module_history(CallTrace, CallTraceRow, ct, ft, it, names, dist):
+    """A row names a module that cannot be imported yet: decoding fails.  Then the module appears on sys.path and the same
+    row is decoded again in the same process: it must decode now."""
+    import importlib
+    import sys
+    from typing import List
+    workdir = next(p for p in sys.path if os.path.isdir(os.path.join(p, encode_fixture.PKG)))
+    name = "c08fx_late"
+    path = os.path.join(workdir, name + ".py")
+    if os.path.exists(path):
+        os.remove(path)
+    sys.modules.pop(name, None)
+    importlib.invalidate_caches()
+    old_row = _row_text(CallTraceRow, name, "late_func", "LateCls.Inner")
+    try:
+        old_row.to_trace()
+        raise RuntimeError("harness: the late module was importable too early")
+    except RuntimeError:
+        raise
+    except Exception:
+        pass                                   # NameLookupError: no such module yet
+    with open(path, "w") as f:
+        f.write(LATE_SOURCE)
+    importlib.invalidate_caches()
+    late = importlib.import_module(name)
+    try:
+        return [_trace_case(CallTrace, CallTraceRow, late.late_func, True, "module that became importable later", "c08fx_late.late_func",
+                            {"a": late.LateCls.Inner}, List[late.LateCls.Inner], None, "type", "absent", ct, ft, it, names, dist,
+                            decode_row=old_row,
+                            history="row decoded while its module was not importable (fails), then the module appears on sys.path, "
+                                    "then the same row is decoded again: ")]
+    finally:
+        dist["history_late_module"] += 1
+
+
+def _import_in_progress_history(CallTrace, CallTraceRow, ct, ft, it, names, dist):
+    """Another thread is in the middle of executing the module body (the names after that point do not exist yet) when a row
+    of that module is decoded: the import system makes the decoder wait for the complete module."""
+    import importlib
+    import sys
+    import threading
+    import types as _types
+    from typing import List
+    workdir = next(p for p in sys.path if os.path.isdir(os.path.join(p, encode_fixture.PKG)))
+    name = "c08fx_slow"
+    sync = _types.ModuleType("c08fx_sync")
+    sync.EV_STARTED, sync.EV_GO = threading.Event(), threading.Event()
+    sys.modules["c08fx_sync"] = sync
+    sys.modules.pop(name, None)
+    with open(os.path.join(workdir, name + ".py"), "w") as f:
+        f.write(SLOW_SOURCE)
+    importlib.invalidate_caches()
+    importer = threading.Thread(target=importlib.import_module, args=(name,), daemon=True)
+    importer.start()
+    if not sync.EV_STARTED.wait(20):
+        sync.EV_GO.set()
+        raise RuntimeError("harness: the importing thread never reached the module body")
+    old_row = _row_text(CallTraceRow, name, "work", "Job")
+    releaser = threading.Timer(0.7, sync.EV_GO.set)           # lets the importing thread finish while we are decoding
+    releaser.start()
+    try:
+        decoded = ("ok", old_row.to_trace())
+    except Exception as e:
+        decoded = ("err", e)
+    sync.EV_GO.set()
+    importer.join(30)
+    releaser.cancel()
+    slow = importlib.import_module(name)
+    dist["history_import_in_progress"] += 1
+    return [_trace_case(CallTrace, CallTraceRow, slow.work, True, "module still being imported by another thread", "c08fx_slow.work",
+                        {"a": slow.Job}, List[slow.Job], None, "type", "absent", ct, ft, it, names, dist,
+                        decode_row=old_row, decoded=decoded,
+                        history="row decoded while another thread is still executing the body of its module (the class and the "
+                                "function are defined after that point): ")]
 
 
 def _dtrace_term(back, ct, ft):
@@ -772,7 +884,7 @@ def _through_store(tr, row, ib, ct, ft):
 
 
 def _trace_case(CallTrace, CallTraceRow, func, expect, kind, label, args, ret, yld, rmode, ymode, ct, ft, it, names, dist,
-                decode_row=None):
+                decode_row=None, decoded=None, history=None):
     """decode_row: a row written earlier (before the module was reloaded) that must carry the same text as this trace's
     row; it is the one decoded."""
     f_id = ft.of(func)
@@ -817,7 +929,12 @@ def _trace_case(CallTrace, CallTraceRow, func, expect, kind, label, args, ret, y
             if old != (row.module, row.qualname, row.arg_types, row.return_type, row.yield_type):
                 raise RuntimeError("harness: the row written before the reload differs from the row of the rebuilt trace")
         try:
-            back = (decode_row if decode_row is not None else row).to_trace()
+            if decoded is not None:            # the decode happened earlier, at the interesting moment of the history
+                if decoded[0] == "err":
+                    raise decoded[1]
+                back = decoded[1]
+            else:
+                back = (decode_row if decode_row is not None else row).to_trace()
             ib = _dtrace_term(back, ct, ft)
             impl = impl or f"to_trace -> func {'same' if back.func is func else 'DIFFERENT'}, return {back.return_type!r:.80}, yield {back.yield_type!r:.80}"
         except Exception as e:
@@ -846,7 +963,7 @@ def _trace_case(CallTrace, CallTraceRow, func, expect, kind, label, args, ret, y
     pre = ""
     if decode_row is not None:
         term = f"ECAfter ({term})"
-        pre = "row written and decoded once, then importlib.reload(fixture module), then the same row decoded again: "
+        pre = history or "row written and decoded once, then importlib.reload(fixture module), then the same row decoded again: "
         dist["trace_decoded_after_reload"] += 1
     return {"kind": "trace", "term": term,
             "desc": pre + f"CallTrace({label} [{kind}], args={ {n: repr(t)[:60] for n, t in args.items()} }, return={ret!r:.80}, yield={yld!r:.80})",
